@@ -125,6 +125,32 @@ def gen_raw(tier, rng):
                 # each op from the same start: one case per op keeps the start state fixed
                 for op in ops:
                     yield [rows, cols, ov, ags, [op]]
+    # free moves of FULL range: every position x every offset that stays inside a non-square grid
+    # (and a few that leave it), with 0-1 other agents
+    for rows, cols in ([(2, 4), (4, 2), (2, 3), (3, 5)] if quick else [(2, 4), (4, 2), (2, 3), (3, 5), (5, 3), (2, 6), (4, 6)]):
+        cells = [(r, c) for r in range(rows) for c in range(cols)]
+        for pos in cells:
+            other = rng.choice(cells)
+            ov = rng.choice(ovs)
+            ags = [wagent(1, pos, rng.randint(1, 4))] + ([wagent(rng.choice([1, 2]), other)] if rng.random() < 0.6 else [])
+            for dr in range(-rows, rows + 1):
+                for dc in range(-cols, cols + 1):
+                    yield [rows, cols, ov, ags, [[0, 0, dr, dc]]]
+    # pile-ups of agents that may overlap their own kind: arrive, leave one by one, somebody else
+    # tries to enter (the cell dictionaries and any derived bookkeeping must follow every step)
+    for _ in range(300 if quick else 6000):
+        rows, cols = rng.choice([(1, 3), (2, 2), (2, 3), (3, 3)])
+        ov = rng.choice([[[1, [1]]], [[1, [1, 2]]], [[1, [1]], [2, [2]]], [[1, [1]], [2, [3]]]])
+        home = (rng.randrange(rows), rng.randrange(cols))
+        others = [(r, c) for r in range(rows) for c in range(cols) if (r, c) != home]
+        pile = rng.randint(2, 3)
+        ags = [wagent(1, home, rng.randint(1, 4)) for _ in range(pile)]
+        for _ in range(rng.randint(1, 2)):
+            ags.append(wagent(rng.choice([2, 2, 3, 1]), rng.choice(others), rng.randint(1, 4)))
+        n = len(ags)
+        ops = [[rng.choice([0, 1]), rng.randrange(n)] for _ in range(rng.randint(4, 20))]
+        ops = [[0, i, rng.randint(-1, 1), rng.randint(-1, 1)] if k == 0 else [1, i, rng.randint(0, 4)] for k, i in ops]
+        yield [rows, cols, ov, ags, ops]
     # random sequences
     n_rand = 1500 if quick else 30000
     for _ in range(n_rand):
